@@ -785,6 +785,21 @@ case("C11", "C11-h-loguser", "benign", "the warning also shows the user name of 
 case("C17", "C17-D24", "mutant", "historical defect D24 re-introduced: BlobDelete never closes its response, BlobGet returns a status error without closing it",
      patch="selftest/regress/D24.diff", expect=[("C17.R11", "BlobDelete", "response of Do closed"), ("C17.R11", "BlobGet", "response of Do closed")])
 
+# sixth round: refactorings aimed at the places the round-6 rules look at
+_CROSS6 = {
+    "C04-b6-2": ["C03", "C07"],
+}
+for _f in sorted(_glob.glob("/verif/selftest/variants/b6/C*-b6-*.diff")):
+    _name = os.path.basename(_f)[:-5]
+    _own = _name.split("-")[0]
+    _desc = ""
+    try:
+        _desc = (json.load(open(_f[:-5] + ".json")).get("summary") or "")[:140].replace("\n", " ")
+    except Exception:
+        pass
+    for _p in [_own] + _CROSS6.get(_name, []):
+        case(_p, _p + "-agent-" + _name, "benign", "agent refactoring (round 6) " + _name + ": " + _desc, patch="selftest/variants/b6/" + _name + ".diff")
+
 def main():
     bad = 0
     for pid, cases in CASES.items():
